@@ -59,12 +59,24 @@ RAW_SPEC = raw_halo_spec()
 EDGE_I16 = np.array([0, 1, -1, 32000, -32000, 32767, -32768, 16000, 2], dtype=np.int16)
 
 
+def _plant(a, values):
+    flat = a.reshape(-1)
+    k = min(len(flat), len(values))
+    if k:
+        flat[np.linspace(0, len(flat) - 1, k).astype(int)] = values[:k]
+
+
 def random_column(rng, n, dtype, tail, kind, smallratio=False):
     shape = (n,) + tail
     if kind == 'unitpos':
-        return rng.uniform(-0.5, 0.5, shape).astype(dtype)
+        a = rng.uniform(-0.5, 0.5, shape).astype(dtype)
+        # the ends of the unit box and zero of either sign are stored values like any other
+        _plant(a, [0.5, -0.5, float(np.nextafter(np.float32(0.5), np.float32(0))), 0.0, -0.0, float(np.nextafter(np.float32(-0.5), np.float32(0)))])
+        return a
     if kind == 'unitvel':
-        return rng.uniform(-0.01, 0.01, shape).astype(dtype)
+        a = rng.uniform(-0.01, 0.01, shape).astype(dtype)
+        _plant(a, [0.0, -0.0, 0.01, -0.01])
+        return a
     if kind == 'unitvelpos':
         return rng.uniform(1e-4, 0.01, shape).astype(dtype)
     if kind == 'unitlen':
@@ -279,6 +291,23 @@ def make_euler_catalog(rng):
     raw['id'] = np.arange(H, dtype=np.uint64)
     write_asdf(_mk(zdir, 'halo_info', 'halo_info_000.asdf'), dict(header=header, data=raw), None)
     return dict(root=root, path=zdir, raw=raw)
+
+
+def make_euler_files(rng, per_file_codes):
+    """Several superslabs; file i's six *_eigenvecs_*_u16 raw columns all hold per_file_codes[i] (degenerate contents allowed)."""
+    root = tempfile.mkdtemp(prefix='verif_euler_')
+    zdir = os.path.join(root, 'SimE', 'halos', 'z0.500')
+    header = dict(BoxSize=500.0, VelZSpace_to_kms=1000.0, ppd=64.0, SimName='SimE', Redshift=0.5, OutputType='GroupOutput')
+    allcodes = []
+    nid = 0
+    for i, codes in enumerate(per_file_codes):
+        codes = np.asarray(codes, dtype=np.uint16)
+        raw = {name: codes.copy() for name, (dt, tail, kind) in RAW_SPEC.items() if kind == 'euler'}
+        raw['id'] = np.arange(nid, nid + len(codes), dtype=np.uint64)
+        nid += len(codes)
+        write_asdf(_mk(zdir, 'halo_info', f'halo_info_{i:03d}.asdf'), dict(header=header, data=raw), None)
+        allcodes.append(codes)
+    return dict(root=root, path=zdir, codes=np.concatenate(allcodes) if allcodes else np.zeros(0, dtype=np.uint16))
 
 
 LC_EXTRA = dict(
